@@ -1,5 +1,5 @@
 from vdriver import Job
-from props import seqcases
+from props import seqcases, C03 as _C03
 
 LEVEL = "other"
 TRUSTED = []
@@ -32,4 +32,5 @@ def jobs(tier):
                      link=DL + ["src/Pointer.c"], also=["C12"], replace_calls=["exception_throw:cv_throw"], unwind=12, group="C09.dispatch.k2",
                      replay="C09_int_cmp.c" if "int" in h else "C09_float_cmp.c"))
     J += seqcases.array_jobs(tier, "C09")
+    J += _C03.tree_jobs(tier, "C09")
     return J
